@@ -136,24 +136,26 @@ theorem batchApply_of_pieces {F} (cs : List (Nat × Nat)) (c : Nat → Nat → O
 theorem chunkPlan_partition (len threads m : Nat) (hm : 0 < m) :
     ∃ cs bs, chunkPlan len threads m = some cs ∧ cs ≠ [] ∧
       (∀ i (h : i < cs.length), cs[i] = (i * bs, min bs (len - i * bs))) ∧
-      (0 < len → ∀ c ∈ cs, 0 < c.2) ∧
+      (0 < len → ∀ c ∈ cs, 0 < c.2) ∧ (∀ c ∈ cs, c.1 + c.2 ≤ len) ∧
       (∀ {α : Type} (xs : List α), xs.length = len →
         (cs.map (fun c => (xs.drop c.1).take c.2)).flatten = xs) := by
   unfold chunkPlan
   generalize hbs : len / Nat.nextPowerOfTwo threads = bs
   by_cases h1 : bs < m
-  · refine ⟨[(0, len)], len, by simp [h1], by simp, ?_, ?_, ?_⟩
+  · refine ⟨[(0, len)], len, by simp [h1], by simp, ?_, ?_, ?_, ?_⟩
     · intro i h
       have : i = 0 := by simpa using h
       subst this; simp
     · intro hl c hc
       simp at hc; subst hc; exact hl
+    · intro c hc
+      simp at hc; subst hc; simp
     · intro α xs hx
       simp [← hx]
   · have hpos : 0 < bs := by omega
     have hne : bs ≠ 0 := by omega
     refine ⟨(List.range ((len + bs - 1) / bs)).map (fun i => (i * bs, min bs (len - i * bs))), bs,
-      by simp only [if_neg h1, if_neg hne], ?_, ?_, ?_, ?_⟩
+      by simp only [if_neg h1, if_neg hne], ?_, ?_, ?_, ?_, ?_⟩
     · have : 0 < (len + bs - 1) / bs := by
         rw [lt_ceil_iff len bs 0 hpos]
         have := Nat.div_mul_le_self len (Nat.nextPowerOfTwo threads)
@@ -167,6 +169,12 @@ theorem chunkPlan_partition (len threads m : Nat) (hm : 0 < m) :
     · intro i h
       simp
     · intro hl c hc
+      simp only [List.mem_map, List.mem_range] at hc
+      obtain ⟨i, hi, rfl⟩ := hc
+      rw [lt_ceil_iff len bs i hpos] at hi
+      simp only
+      omega
+    · intro c hc
       simp only [List.mem_map, List.mem_range] at hc
       obtain ⟨i, hi, rfl⟩ := hc
       rw [lt_ceil_iff len bs i hpos] at hi
@@ -189,6 +197,19 @@ theorem chunkPlan_none_iff (len threads m : Nat) :
   · by_cases h2 : bs = 0
     · simp [h2]
     · simp [h1, h2]
+
+/-- `batch_inversion` for every thread count (used by C13's interpolation lemmas) -/
+theorem batchInversion_eq {K : Type} [Field K] [DecidableEq K] (inv : K → K)
+    (hinv : ∀ x : K, x ≠ 0 → x * inv x = 1) (threads : Nat) (vs : List K) :
+    batchInversion (ringOps K inv) threads vs = some (vs.map (fun v => v⁻¹)) := by
+  obtain ⟨cs, bs, hplan, _, _, _, _, hcov⟩ := chunkPlan_partition vs.length threads 1024 (by decide)
+  unfold batchInversion
+  rw [hplan]
+  apply batchApply_of_pieces
+  · intro p _
+    rw [serialBatchInversion_eq inv hinv]
+    simp [List.map_take, List.map_drop]
+  · exact hcov _ (by simp)
 
 /-! ### power series -/
 
@@ -217,12 +238,14 @@ theorem fillTail_eq (b : R) (k : Nat) (prev : R) :
       simp only [Nat.succ_eq_add_one]
       ring
 
-theorem fillPowerSeries_eq (b s : R) (l : Nat) (hl : 0 < l) :
+theorem fillPowerSeries_eq (b s : R) (l : Nat) :
     fillPowerSeries (ringOps R inv) l b s = some ((List.range l).map (fun i => s * b ^ i)) := by
-  obtain ⟨k, rfl⟩ := Nat.exists_eq_succ_of_ne_zero (Nat.pos_iff_ne_zero.mp hl)
-  simp only [fillPowerSeries, fillTail_eq]
-  rw [List.range_succ_eq_map]
-  simp [Function.comp_def]
+  cases l with
+  | zero => rfl
+  | succ k =>
+    simp only [fillPowerSeries, fillTail_eq]
+    rw [List.range_succ_eq_map]
+    simp [Function.comp_def]
 end pow
 
 /-! ### element-wise updates -/
